@@ -41,6 +41,14 @@ func runC15(s *Sim) {
 	case "late-pong":
 		delay = to + Pick(t, "late-by", time.Millisecond, time.Second, to)
 	}
+	// many requests in flight across keepalive ticks (the broker is slow with their responses, prompt with
+	// pongs): the keepalive exchange does not depend on how many requests are outstanding
+	manyPending := 0
+	if mode == "live" && t.Bool("many-pending-requests", 1, 4) {
+		manyPending = Pick(t, "pending-n", 40, 33, 70)
+	}
+	// the silent peer also stops reading: writes block after the first ping it leaves unanswered
+	stopReading := mode == "dead" && silentAt > delay && t.Bool("silent-peer-stops-reading", 1, 3)
 	first := true
 	s.Net.OnDial = func(l *Link) {
 		l.pongModel = true
@@ -48,10 +56,11 @@ func runC15(s *Sim) {
 		if first {
 			// the fault applies to the first connection; redials meet a healthy peer
 			l.pongDelay, l.pongSilentAt = delay, silentAt
+			l.stopReading = stopReading
 			first = false
 		}
 	}
-	s.NewTasks(2)
+	s.NewTasks(2 + manyPending)
 	s.Start(0, y.connectOp())
 	s.Wait()
 	y.Pump()
@@ -103,7 +112,23 @@ func runC15(s *Sim) {
 	if mode == "live" && t.Bool("unconsumed-inbound-calls", 1, 4) {
 		unconsumed = Pick(t, "unconsumed-n", 5, 12, 40, 300)
 	}
+	var pendingOps []*Op
+	holdUntil := time.Duration(-1)
+	if manyPending > 0 {
+		s.Broker.HoldMetadata = true
+		holdUntil = s.Now() + Pick(t, "pending-for", 3*iv+to, iv+time.Millisecond, 6*iv)
+		for k := 0; k < manyPending; k++ {
+			op := y.sendMetaOp(fmt.Sprintf("pending-%d", k))
+			pendingOps = append(pendingOps, s.Start(2+k, op))
+		}
+		s.Wait()
+		s.StatN("env.requests-in-flight-across-keepalive-ticks", manyPending)
+	}
 	for s.Now() < horizon {
+		if holdUntil >= 0 && s.Now() >= holdUntil {
+			holdUntil = -1
+			s.Broker.HoldMetadata = false
+		}
 		if strayPong && s.Now()+step >= silentAt {
 			strayPong = false
 			if b, err := l0.encode(&message.Pong{RequestID: 999998}); err == nil {
@@ -131,7 +156,10 @@ func runC15(s *Sim) {
 		}
 		if t.Bool("broker-ping", 1, 8) {
 			for _, l := range y.aliveLinks() {
-				if l.bc != nil && l.bc.Connected {
+				s.mu.Lock()
+				peerGone := l.stopReading && l.stalled // that peer neither reads nor writes any more
+				s.mu.Unlock()
+				if l.bc != nil && l.bc.Connected && !peerGone {
 					if t.Bool("broker-ping-burst-behind-slow-link", 1, 3) {
 						// several broker pings arrive back to back while the link does not take the
 						// client's writes for a moment (no time passes): each gets its own pong
@@ -183,12 +211,22 @@ func runC15(s *Sim) {
 			}
 		}
 		y.flushLinks()
-		s.Broker.ReleaseAll()
+		if holdUntil < 0 {
+			s.Broker.ReleaseAll()
+		}
 		y.flushLinks()
 		s.Advance(step)
 		s.steps++
 	}
+	s.Broker.HoldMetadata = false
+	s.Broker.ReleaseAll()
 	y.Pump()
+	for _, op := range pendingOps {
+		if len(s.Net.DialTimes) == 1 && (!op.harvested || op.Err != nil) {
+			s.Violate("C15.live-peer-dropped", "request-lost", "SendMetadata(%s), one of %d requests answered late by a broker that answered every ping at once: returned=%v err=%s", op.Args, manyPending, op.harvested, errString(op.Err))
+			break
+		}
+	}
 	s.Nontrivial()
 	s.mu.Lock()
 	dials := append([]time.Duration(nil), s.Net.DialTimes...)
